@@ -136,14 +136,17 @@ def parseAuth (tok : String) : Option ReqAuth :=
 
 /-- Routes the harness adds through `Handler.AddRoutes` (which prepends BasePath). -/
 def harnessRoutes : List Route :=
-  allowedMethods.flatMap fun m => [⟨m, base ++ "/tasks".toList, .recorder⟩, ⟨m, base ++ "/tasks/".toList, .recorder⟩]
+  allowedMethods.flatMap fun m =>
+    [{ method := m, pattern := base ++ "/tasks".toList, kind := .recorder },
+     { method := m, pattern := base ++ "/tasks/".toList, kind := .recorder }]
 
 def httpBranches (cfg : Cfg) (req : Req) (out : HttpOut) : List String :=
   let b1 :=
     if !allowedMethods.contains req.method then ["http-unknown-method-404"]
     else if muxCleanPath req.path ≠ req.path then ["http-unclean-path-301"]
     else if req.method = "OPTIONS".toList then ["http-options-cors"]
-    else match authenticate cfg.requireAuth cfg.svc req.auth with
+    else match authenticate (match muxMatch (builtinRoutes ++ cfg.extra) req.method req.path with
+                             | some r => routeRequiresAuth cfg r | none => cfg.requireAuth) cfg.svc req.auth with
       | .rejected => ["http-401-" ++ (match parseCredentials req.auth with
           | none => "no-credentials"
           | some c => match c.method with | .user => "user" | .bearer => "bearer" | .subscription => "subscription" | .other => "other")]
@@ -151,13 +154,18 @@ def httpBranches (cfg : Cfg) (req : Req) (out : HttpOut) : List String :=
         let m := match parseCredentials req.auth with
           | none => "none"
           | some c => match c.method with | .user => "user" | .bearer => "bearer" | .subscription => "subscription" | .other => "other"
-        let how := if cfg.requireAuth then ["http-authenticated-" ++ m] else ["http-auth-disabled-admin"]
+        let bypassed := cfg.requireAuth && (match muxMatch (builtinRoutes ++ cfg.extra) req.method req.path with
+                             | some r => !routeRequiresAuth cfg r | none => false)
+        let how := if bypassed then ["http-bypass-auth-pprof"] else if cfg.requireAuth then ["http-authenticated-" ++ m] else ["http-auth-disabled-admin"]
         if !authorizeRequest req.method req.path u then "http-403" :: how else how
   let b2 := (if out.served then ["http-served"] else []) ++ (if out.wrote then ["http-wrote"] else []) ++
     (if out.status = 400 then ["http-write-no-db-400"] else []) ++
     (if out.status = 404 ∧ out.user.isSome then ["http-404-after-auth"] else []) ++
     (if out.status = 401 ∧ out.user.isSome then ["http-write-db-refused-401"] else []) ++
-    (if preview.isPrefixOf req.path ∧ out.user.isSome then ["http-preview-rewrite"] else [])
+    (if preview.isPrefixOf req.path ∧ out.user.isSome then ["http-preview-rewrite"] else []) ++
+    (match muxMatch (builtinRoutes ++ cfg.extra) req.method req.path with
+     | some r => if r.kind = .other ∧ out.served then ["http-builtin-other-served"] else []
+     | none => [])
   b1 ++ b2
 
 def judge (_id : String) (lines : Array String) : Verdict := Id.run do
@@ -251,13 +259,14 @@ def judge (_id : String) (lines : Array String) : Verdict := Id.run do
       let some p := unescL p | return .badop l
       let some db := unescL db | return .badop l
       let some au := parseAuth cred | return .badop l
-      let cfg : Cfg := { requireAuth := ra == "1", svc := { users := st.users, subs := st.subs }, extra := harnessRoutes }
+      let cfg : Cfg := { requireAuth := ra == "1" || ra == "3", exposePprof := ra == "2" || ra == "3",
+                         svc := { users := st.users, subs := st.subs }, extra := harnessRoutes }
       let req : Req := { method := m, path := p, auth := au, db := db }
       let out := serveHTTP cfg 2 req
       match obs with
       | [code, sv, wr] =>
         let served := sv == "1"; let wrote := wr == "1"
-        if served && !Spec.servedOK cfg.requireAuth cfg.svc req then
+        if served && !Spec.servedOK cfg.requireAuth cfg.exposePprof cfg.svc req then
           st := st.sf "served-only-authenticated-and-authorised" l
         if wrote && !Spec.wroteOK databaseResource cfg.requireAuth cfg.svc req then
           st := st.sf "write-checks-api-and-database" l
